@@ -29,6 +29,8 @@ thread_local! {
 
 /// Set by single-threaded driver processes: steps may change the working directory there.
 pub static ALLOW_CHDIR: std::sync::atomic::AtomicBool = std::sync::atomic::AtomicBool::new(false);
+/// Set by the driver binary: this process runs steps on somebody's behalf and ends afterwards.
+pub static IN_DRIVER: std::sync::atomic::AtomicBool = std::sync::atomic::AtomicBool::new(false);
 
 fn before_commit(ctx: &Ctx, s: &WriteSpec) {
     if let Some(d) = s.chdir_mid {
@@ -860,7 +862,7 @@ fn do_abandon_sync(ctx: &Ctx, s: &WriteSpec, at: AbandonAt) -> Out {
     let chunks = cut_chunks(&data, &s.chunks);
     let n = match at {
         AbandonAt::AfterChunks(n) | AbandonAt::MidFlight(n) | AbandonAt::CancelThenCommit(n) => n.min(chunks.len()),
-        AbandonAt::AfterFlush | AbandonAt::AfterShutdown => chunks.len(),
+        AbandonAt::AfterFlush | AbandonAt::AfterShutdown | AbandonAt::CommitDropped(_) => chunks.len(),
     };
     for ch in &chunks[..n] {
         if let Err(e) = sync_write_chunk(&mut w, ch) {
@@ -890,7 +892,7 @@ async fn do_abandon_async(ctx: &Ctx<'_>, s: &WriteSpec, at: AbandonAt) -> Out {
     let chunks = cut_chunks(&data, &s.chunks);
     let n = match at {
         AbandonAt::AfterChunks(n) | AbandonAt::MidFlight(n) | AbandonAt::CancelThenCommit(n) => n.min(chunks.len()),
-        AbandonAt::AfterFlush | AbandonAt::AfterShutdown => chunks.len(),
+        AbandonAt::AfterFlush | AbandonAt::AfterShutdown | AbandonAt::CommitDropped(_) => chunks.len(),
     };
     for ch in &chunks[..n] {
         if let Err(e) = async_write_chunk(&mut w, ch).await {
@@ -934,6 +936,41 @@ async fn do_abandon_async(ctx: &Ctx<'_>, s: &WriteSpec, at: AbandonAt) -> Out {
         if let Err(e) = w.flush().await {
             return io_out(e);
         }
+    }
+    if let AbandonAt::CommitDropped(polls) = at {
+        use std::future::Future;
+        let waker = futures::task::noop_waker();
+        let mut cx = std::task::Context::from_waker(&waker);
+        let mut fut = Box::pin(w.commit());
+        let mut done = None;
+        for p in 0..polls.max(1) {
+            if let std::task::Poll::Ready(r) = fut.as_mut().poll(&mut cx) {
+                done = Some(r);
+                break;
+            }
+            if p + 1 < polls.max(1) {
+                std::thread::sleep(std::time::Duration::from_micros(150 * (p as u64 + 1)));
+            }
+        }
+        drop(fut);
+        return match done {
+            Some(Ok(sri)) => Out::Int(sri.to_string()),
+            Some(Err(e)) => err_out(e),
+            None => {
+                // the background work of the cancelled commit finishes on its own: wait until
+                // the temp area is empty again (bounded; the drain check proper is the caller's)
+                let tmp = ctx.cache.join("tmp");
+                for _ in 0..3000 {
+                    let busy = std::fs::read_dir(&tmp).map(|rd| rd.flatten().next().is_some()).unwrap_or(false);
+                    if !busy {
+                        break;
+                    }
+                    std::thread::sleep(std::time::Duration::from_millis(1));
+                }
+                std::thread::sleep(std::time::Duration::from_millis(2));
+                Out::Unit
+            }
+        };
     }
     drop(w);
     Out::Unit
@@ -1786,15 +1823,26 @@ pub struct StepResult {
     pub t1: u128,
 }
 
+/// The file a link call names, (re)created by the harness before the call; an already correct
+/// one is left alone so that callers can tell whether the library touched it. Every other
+/// target is a file its owner made read-only (mode 0444).
+pub fn prep_link_target(ctx: &Ctx, l: &LinkSpec) {
+    let p = ctx.target_path(l.target);
+    if std::fs::read(&p).map(|b| b != ctx.blob(l.blob)[..]).unwrap_or(true) {
+        std::fs::write(&p, &ctx.blob(l.blob)[..]).expect("write link target");
+        if l.target % 2 == 1 {
+            use std::os::unix::fs::PermissionsExt;
+            let _ = std::fs::set_permissions(&p, std::fs::Permissions::from_mode(0o444));
+        }
+    }
+}
+
 /// Runs several steps (async flavour) as futures joined in ONE task: they make progress
 /// interleaved on one thread, each yielding wherever the library awaits.
 pub fn run_steps_joined(ctx: &Ctx, steps: &[Step]) -> Vec<StepResult> {
     for st in steps {
         if let Op::LinkTo(l) = &st.op {
-            let p = ctx.target_path(l.target);
-            if std::fs::read(&p).map(|b| b != ctx.blob(l.blob)[..]).unwrap_or(true) {
-                std::fs::write(&p, &ctx.blob(l.blob)[..]).expect("write link target");
-            }
+            prep_link_target(ctx, l);
         }
     }
     MY_PANICS.with(|p| p.borrow_mut().clear());
@@ -1823,20 +1871,47 @@ pub fn run_steps_joined(ctx: &Ctx, steps: &[Step]) -> Vec<StepResult> {
     }
 }
 
+/// An async commit cancelled in flight leaves work behind that no runtime lets one wait for
+/// (async-std) — so it runs in a process of its own, which ends right after the step: what
+/// the cache shows once that process is gone is final.
+fn run_step_in_process_of_its_own(ctx: &Ctx, step: &Step) -> StepResult {
+    let n = ctx.dest_n.get();
+    ctx.dest_n.set(n + 1);
+    let pf = ctx.scratch.join(format!("own-process-{n}.json"));
+    let of = ctx.scratch.join(format!("own-process-{n}.out"));
+    let prog = Program { keys: ctx.keys.to_vec(), blobs: ctx.blobs.to_vec(), steps: vec![step.clone()] };
+    let run = || -> Result<StepResult, String> {
+        std::fs::write(&pf, serde_json::to_string(&prog).unwrap()).map_err(|e| format!("INFRA: {e}"))?;
+        // (the command line carries text: a spelling of the cache path that is not UTF-8 is
+        // replaced by the canonical one — the same directory)
+        let cache = if ctx.cache.to_str().is_some() { ctx.cache.clone() } else { std::fs::canonicalize(&ctx.cache).map_err(|e| format!("INFRA: {e}"))? };
+        let v = crate::sup::run_fresh(&cache, &ctx.scratch, &pf, 0, 1, &of, None)?;
+        let (_, out, t0, t1) = v.into_iter().next().ok_or("INFRA: the driver process produced no result")?;
+        Ok(StepResult { out, t0, t1 })
+    };
+    let r = run().or_else(|_| run());
+    let _ = std::fs::remove_file(&pf);
+    let _ = std::fs::remove_file(&of);
+    match r {
+        Ok(r) => r,
+        Err(e) => StepResult { out: Out::Panic(if e.starts_with("INFRA:") { e } else { format!("INFRA: {e}") }), t0: 0, t1: 0 },
+    }
+}
+
 /// Runs one step under the panic catcher.
 pub fn run_step(ctx: &Ctx, step: &Step) -> StepResult {
+    if let (Op::Abandon { at: AbandonAt::CommitDropped(_), .. }, Fl::Async) = (&step.op, step.fl) {
+        if !IN_DRIVER.load(Ordering::SeqCst) {
+            return run_step_in_process_of_its_own(ctx, step);
+        }
+    }
     if step.op.is_harness_side() {
         let out = do_harness_side(ctx, &step.op);
         return StepResult { out, t0: 0, t1: 0 };
     }
     if let Op::LinkTo(l) = &step.op {
         // the target file is (re)created by the harness before linking
-        let p = ctx.target_path(l.target);
-        // leave an already correct target alone so that callers can tell whether the
-        // library touched it
-        if std::fs::read(&p).map(|b| b != ctx.blob(l.blob)[..]).unwrap_or(true) {
-            std::fs::write(&p, &ctx.blob(l.blob)[..]).expect("write link target");
-        }
+        prep_link_target(ctx, l);
     }
     MY_PANICS.with(|p| p.borrow_mut().clear());
     // extraction prepares / observes its destination itself and opens the window around the
